@@ -176,7 +176,7 @@ def th(tier):
 
 PROPS["C04"] = {
     "level": "exploration",
-    "rule": "non-interference: for every (N, length, operation with exact arguments) the case is executed under every variant (front slot x construction route x filling of the unoccupied slots: natural stale bytes, 0x00, 0xFF, 0x5A, byte-copy of a destroyed element, byte-copy of a live element held by the harness; boxed routes additionally start from painted fresh memory) and the canonical traces (returns, contents, ledger events, panics; ids normalised to position/argument/clone-of labels) must be identical; GarbageTouched/StaleTouched/DoubleDrop on an injected copy refute the property directly. distinct_nontrivial = distinct (N, element type, length, operation) whose variants were all compared; counters traces_compared and garbage_bytes_poked are measured. Sanitizer jobs (Miri, memcheck on the release binary) run the same cases with painting and poking off.",
+    "rule": "non-interference: for every (N, length, operation with exact arguments) the case is executed under every variant (front slot x construction route x filling of the unoccupied slots: natural stale bytes, 0x00, 0xFF, 0x5A, byte-copy of a destroyed element, byte-copy of a live element held by the harness; boxed routes additionally start from painted fresh memory) and the canonical traces (returns, contents, ledger events, panics; ids normalised to position/argument/clone-of labels) must be identical; GarbageTouched/StaleTouched/DoubleDrop on an injected copy refute the property directly. distinct_nontrivial = distinct (N, element type, length, operation) whose variants were all compared; counters traces_compared and garbage_bytes_poked are measured. Sanitizer jobs (Miri, memcheck on the release binary) run the same cases with painting and poking off. In addition every ledger event (an operation touching, cloning, comparing or destroying the bytes of an element that is no longer alive in the buffer) seen in the non-interference runs, in random histories with garbage repainting, and in the fault-enumeration and faulted random workloads (--c04) is a violation by the letter of the property.",
     "jobs": lambda tier: [
         J("dbg", "nonint", "--n", ns(0, 3 if tier == "quick" else 5), *th(tier)),
         J("rel", "nonint", "--n", ns(0, 4 if tier == "quick" else 6), *th(tier), count_distinct=False),
@@ -450,7 +450,10 @@ def random_fault_jobs(tier):
 
 with_jobs("C05", random_fault_jobs)
 with_jobs("C06", random_fault_jobs)
-with_jobs("C04", lambda tier: [S("dbg", "random", "--n", "0,1,2,3,5,8,16,61", "--ops", 3000 if tier == "quick" else 80000, "--repaint", 1, "--emit-distinct", 1),
+with_jobs("C04", lambda tier: [S("dbg", "faults", "--n", ns(0, q(tier, 4, 6)), "--c04", 1, *th(tier)),
+                               S("rel", "faults", "--n", ns(0, q(tier, 4, 6)), "--c04", 1, *th(tier)),
+                               S("dbg", "random", "--n", "0,1,2,3,5,8,16,61", "--ops", 3000 if tier == "quick" else 80000, "--repaint", 1, "--faults", 1, "--c04", 1, "--emit-distinct", 1),
+                               S("dbg", "random", "--n", "0,1,2,3,5,8,16,61", "--ops", 3000 if tier == "quick" else 80000, "--repaint", 1, "--emit-distinct", 1),
                                S("rel", "random", "--n", "0,1,2,3,5,8,16,61", "--ops", 3000 if tier == "quick" else 80000, "--repaint", 1, "--emit-distinct", 1),
                                S("rel", "random", "--n", "1,2,5,16", "--ops", 3000 if tier == "quick" else 80000, "--repaint", 1, "--elem", "nodrop", "--emit-distinct", 1, shards=8)])
 
